@@ -48,7 +48,27 @@ def apply_revert(d, subject):
     if sha is None:
         return f"fix commit not found: {subject}"
     p = sh(f"git -C {REPO} show {sha} | git -C {d} apply -R -")
-    return None if p.returncode == 0 else p.stderr
+    if p.returncode == 0:
+        return None
+    # later fixes touched the same lines: revert file by file; where a file's hunks no longer fit and the fix only ADDED
+    # lines there, take exactly those lines out again
+    files = sh(["git", "-C", REPO, "show", "--format=", "--name-only", sha]).stdout.split()
+    for f in files:
+        q = sh(f"git -C {REPO} show {sha} -- {f} | git -C {d} apply -R -")
+        if q.returncode == 0:
+            continue
+        diff = sh(["git", "-C", REPO, "show", "--format=", sha, "--", f]).stdout.splitlines()
+        body = [l for l in diff if l[:1] in "+-" and not l.startswith(("+++", "---"))]
+        if any(l.startswith("-") for l in body):
+            return p.stderr
+        path = os.path.join(d, f)
+        lines = open(path).read().split("\n")
+        for l in body:
+            if l[1:] not in lines:
+                return p.stderr
+            lines.remove(l[1:])
+        open(path, "w").write("\n".join(lines))
+    return None
 
 
 def run_suite(d):
